@@ -19,7 +19,8 @@ BASE_MIX = [
 N_WORLDS = {"quick": 320, "thorough": 7000}
 # direct-drive simulations with the chaos policy (vmon/direct.py): multi-timestamp graphs, hostile decisions
 N_DIRECT = {"quick": 480, "thorough": 12000}
-DIRECT_PIDS = ("C01", "C02", "C03", "C05", "C06")
+DIRECT_PIDS = ("C01", "C02", "C03", "C05", "C06", "C10")
+N_DIRECT_C10 = {"quick": 240, "thorough": 6000}
 
 RULES = {
     "C01": ("a world in which at some instant >=2 tasks were co-resident on one worker, or a placement was "
@@ -50,6 +51,13 @@ class E2ECheck:
         return 900 if tier == "quick" else 7200
 
     def mix(self, tier):
+        if self.pid == "C07":
+            cond = ["cond", "cond_nested", "multi_cond", "multi_cond", "cond_dag"]
+            return BASE_MIX + [
+                ("greedy", {"shapes": cond}, 0.2),
+                ("greedy", {"shapes": cond, "flags": {"resolve_conditionals_at_submission": True}}, 0.25),
+                ("planner", {"shapes": cond, "max_nodes": 8, "flags": {"resolve_conditionals_at_submission": True}}, 0.05),
+            ]
         return BASE_MIX
 
     def shards(self, tier, seed):
@@ -64,7 +72,15 @@ class E2ECheck:
                 specs.append({"seed": seed, "profile": profile, "over": over, "start": start,
                               "count": min(per, cnt - start), "pid": self.pid})
                 start += per
-        if self.pid in DIRECT_PIDS:
+        if self.pid == "C10":
+            # chaos-driven runs in which the bundled policies are shadow-invoked: two thirds on graphs the planners accept
+            nd = int(os.environ.get("VERIF_N_DIRECT", N_DIRECT_C10[tier]))
+            per = -(-nd // (12 if tier == "quick" else 48))
+            for k, start in enumerate(range(0, nd, per)):
+                specs.append({"seed": seed, "kind": "direct", "profile": "direct", "over": {}, "start": start,
+                              "count": min(per, nd - start), "pid": self.pid, "shadow": True,
+                              "variant": None if k % 3 == 2 else "planner"})
+        elif self.pid in DIRECT_PIDS:
             nd = int(os.environ.get("VERIF_N_DIRECT", N_DIRECT[tier]))
             per = -(-nd // 8)
             for start in range(0, nd, per):
@@ -77,14 +93,16 @@ class E2ECheck:
                 "start": case["index"], "count": 1, "pid": self.pid, "replay": True}
         if case["profile"] == "direct":
             spec["kind"] = "direct"
+            spec["variant"] = case.get("variant")
+            spec["shadow"] = case.get("shadow", False)
         return spec
 
     def run_direct_shard(self, spec):
         from .. import direct
         out = []
         for idx in range(spec["start"], spec["start"] + spec["count"]):
-            world = direct.gen_direct((spec["seed"], idx))
-            ctx = direct.run_direct(world)
+            world = direct.gen_direct((spec["seed"], idx), variant=spec.get("variant"))
+            ctx = direct.run_direct(world, shadow=spec.get("shadow", False))
             flags = set(ctx.flags)
             if "planned_before_release" in flags:
                 flags.add("plan_ahead")
@@ -93,8 +111,11 @@ class E2ECheck:
             counters["direct_multi_timestamp_graphs"] = sum(1 for g in world["graphs"] if g["kind"] == "stream")
             if ctx.ended:
                 counters["ev_SIMULATOR_END"] = 1
-            viol = [dict(v, case={"seed": spec["seed"], "profile": "direct", "over": {}, "index": idx}, case_id=f"direct/{idx}",
-                         facts={"scheduler": "Chaos", "direct": True}) for v in ctx.viol if v["prop"] == self.pid]
+            viol = [dict(v, case={"seed": spec["seed"], "profile": "direct", "over": {}, "index": idx, "variant": spec.get("variant"),
+                               "shadow": spec.get("shadow", False)}, case_id=f"direct/{spec.get('variant')}/{idx}",
+                         facts=dict(v.get("facts") or {}, scheduler="Chaos", direct=True)) for v in ctx.viol if v["prop"] == self.pid]
+            if spec.get("shadow") and (ctx.counters.get("shadow_calls_busy", 0) > 0):
+                counters["shadow_calls_busy"] = ctx.counters["shadow_calls_busy"]  # same name as in e2e runs: the C10 rule reads it
             s = {"index": idx, "profile": "direct", "hash": common.case_hash(world), "status": ctx.status, "exception": ctx.exception,
                  "flags_seen": sorted(flags), "counters": counters, "viol": viol, "scheduler": "Chaos(direct)", "work_conserving": False,
                  "cell": ["Chaos", world["frequency"], 0], "end": None, "ntasks": len(ctx.rec), "wall": round(ctx.wall, 3)}
